@@ -173,7 +173,7 @@ pub fn run_case(case: &Case, which: &'static str, seed: u64, case_no: u64, workd
     step_no = i;
     match st {
       Step::Set(r, v) => { world.set(*r, *v); pending.insert(*r); }
-      Step::Arm(..) | Step::PanicAt(_) => {}
+      Step::Arm(..) | Step::PanicAt(_) | Step::PanicAtAny(_) => {}
       Step::TopDown(roots) | Step::BottomUp(roots) => {
         let bottom_up = matches!(st, Step::BottomUp(_));
         let pre = world.read();
